@@ -56,11 +56,18 @@ class NetworkxGraph(AbstractGraph):
         """Constructs a graph from all modules and their imports."""
         self._add_all_modules_as_nodes()
 
+        # modules of the full (not level limited) architecture: an import only counts if it connects two of them,
+        # also when a level limit would flatten a non-existent importee onto an existing parent module
+        known_modules = set(self._all_modules)
+        for module in self._all_modules:
+            known_modules.update(get_parent_modules(module))
+
         for imp in self._imports:
             importer = imp.importer()
             importee = imp.importee()
 
-            self._create_edge(importer, importee)
+            if importer in known_modules and importee in known_modules:
+                self._create_edge(importer, importee)
 
             self._add_edges_within_module_hierarchy(
                 imp.importer_parent_modules(),
